@@ -1,5 +1,5 @@
 // ---- lemmas about the Lattice vocabulary (verified wherever included) ----
-pub proof fn lemma_wf_back_ok<C: ConnectorCost>(l: Lattice, c: &C)
+pub proof fn lemma_wf_back_ok<C: CostModel>(l: Lattice, c: &C)
     requires l.wf(c),
     ensures l.back_ok(),
 {
@@ -9,14 +9,14 @@ pub proof fn lemma_wf_back_ok<C: ConnectorCost>(l: Lattice, c: &C)
     }
 }
 
-pub proof fn lemma_canonical_wf<C: ConnectorCost>(l: Lattice, c: &C)
+pub proof fn lemma_canonical_wf<C: CostModel>(l: Lattice, c: &C)
     requires l.canonical(l.len_char as int), c.conn_wf(), Lattice::cost_room(l.len_char as int, c),
     ensures l.wf(c), l.frontier(0),
 {
 }
 
 /// what search_min_node needs about the predecessor list at boundary sn
-pub proof fn lemma_pred_range<C: ConnectorCost>(l: Lattice, sn: int, left_id: u16, c: &C)
+pub proof fn lemma_pred_range<C: CostModel>(l: Lattice, sn: int, left_id: u16, c: &C)
     requires l.wf(c), 0 <= sn <= l.len_char, (left_id as int) < c.spec_num_left(),
     ensures
         forall|k: int| 0 <= k < l.ends[sn].len() ==>
@@ -45,7 +45,7 @@ pub proof fn lemma_pred_range<C: ConnectorCost>(l: Lattice, sn: int, left_id: u1
     }
 }
 
-pub proof fn lemma_insert_keeps_wf<C: ConnectorCost>(o: Lattice, n: Lattice, sn: int, ew: int, c: &C)
+pub proof fn lemma_insert_keeps_wf<C: CostModel>(o: Lattice, n: Lattice, sn: int, ew: int, c: &C)
     requires
         o.wf(c), o.frontier(sn),
         n.len_char == o.len_char,
